@@ -90,9 +90,12 @@ func allFilters(mo *m.Model) []string {
 func genCase(t *rapid.T) Case {
 	o := worldOpts()
 	var w gen.World
-	if rapid.IntRange(0, 1).Draw(t, "family") == 0 {
-		w = gen.GenWorld(t, o) // the shared generator G
-	} else {
+	switch rapid.IntRange(0, 3).Draw(t, "family") {
+	case 0:
+		w = gen.AnyWorld(t, o) // the shared generator G (generic worlds and the fast-path families)
+	case 1:
+		w = gen.CycleWorld(t, o) // recursive relations over densely linked objects
+	default:
 		w = boostedWorld(t, o) // same space, weights on wildcards under set operators (boost_test.go)
 	}
 	filters := allFilters(w.Model)
